@@ -220,3 +220,75 @@ def mod_item_tokens(it, P):
 def impl_attr_source(attr, model):
     k = attr.f('impl_kind')
     return 'ref' if k.variant == 'DynRef' else ''
+
+
+# ---------------------------------------------------------------------------
+# front end: attribute lists parsed by entrait's own Parse impls over a symbolic token list
+# ---------------------------------------------------------------------------
+
+ATTR_TYPE = {'fn': 'EntraitFnAttr', 'mod': 'EntraitFnAttr', 'trait': 'EntraitTraitAttr', 'impl': 'EntraitSimpleImplAttr'}
+BACKEND = {'fn': 'entrait_for_single_fn', 'mod': 'entrait_for_mod', 'trait': 'output_tokens', 'impl': 'output_tokens_for_impl'}
+
+
+def fixed_item(prog, target):
+    """a small concrete item of each kind, so that the whole `invoke` pipeline (parse attribute -> expand) is exercised"""
+    A = prog.ast
+    G = inputs.Gen(prog, inputs.Bounds())
+
+    def simple_fn(name, vis):
+        sig = A.signature(A.ident(name), [A.fn_arg_typed(A.pat_ident(A.ident('deps')), A.type_ref(A.type_impl_trait([G.bound('B0')]))),
+                                          A.fn_arg_typed(A.pat_ident(A.ident('p1')), A.type_path_ident(A.ident('u32')))])
+        return ssetup.local_node(prog, 'InputFn', fn_attrs=VecObj([]), fn_vis=vis, fn_sig=sig, fn_body=G.body('b'))
+    if target == 'fn':
+        return simple_fn('foo', A.vis_inherited())
+    if target == 'mod':
+        return ssetup.local_node(prog, 'InputMod', attrs=VecObj([]), vis=A.vis_inherited(), mod_token=Tok('Mod'), ident=A.ident('m'), brace_token=Tok('Brace'),
+                                 items=VecObj([Obj('ModItem', 'PubFn', [Obj('Box', None, [simple_fn('f0', A.vis_pub())])])]))
+    if target == 'impl':
+        return ssetup.local_node(prog, 'InputImpl', attrs=VecObj([]), unsafety=NONE(), impl_token=Tok('Impl'), trait_path=A.path([A.ident('FooImpl')]),
+                                 for_token=Tok('For'), self_ty=A.type_path_ident(A.ident('MyImpl')), brace_token=Tok('Brace'),
+                                 items=VecObj([Obj('ImplItem', 'Fn', [Obj('Box', None, [simple_fn('f0', A.vis_inherited())])])]))
+    if target == 'trait':
+        sig = A.signature(A.ident('m0'), [A.receiver(reference=True), A.fn_arg_typed(A.pat_ident(A.ident('q1')), A.type_path_ident(A.ident('u32')))])
+        m = A.enum('TraitItem', 'Fn', A.node('TraitItemFn', sig=sig, default=NONE(), semi_token=NONE()))
+        return A.node('ItemTrait', vis=A.vis_inherited(), unsafety=NONE(), auto_token=NONE(), restriction=NONE(), ident=A.ident('Tr'),
+                      generics=A.generics([], None), colon_token=NONE(), supertraits=Punct([], 'Plus'), items=VecObj([m]))
+    raise ValueError(target)
+
+
+def front_mode(prog, sl, with_spec=True):
+    from . import front
+    target = sl['target']
+    variant = sl.get('variant', 'entrait')
+    n = sl.get('max_tokens', 6)
+    alpha, labels = front.attr_alphabet()
+    set_fixed(prog, sl.get('fixed', ()))
+
+    def setup(ex):
+        cells = front.sym_tokens('a', n, alpha, labels)
+        pb = front.PBuf(cells, 0, 'a')
+        ex.notes['input'] = dict(mode='front', target=target, variant=variant, n=n)
+
+        def run(ex, pb):
+            body = prog.ix.methods[(ATTR_TYPE[target], 'Parse', 'parse')]
+            r = ex.force(ex.run_body(prog.bodies[body], [new_cell(pb)]))
+            if r.variant == 'Ok' and front.tok_at(ex, pb) != front.END:
+                # syn::parse / parse_macro_input!: the whole stream must be consumed
+                r = Err(Obj('Error', None, [front.span_at(pb), 'unexpected token'], ['span', 'message']))
+            parsed = r
+            out = r
+            attr0 = None
+            if r.variant == 'Ok':
+                attr = r.fields[0]
+                attr0 = clone_val(attr)
+                apply_variant(ex, variant, Ptr(attr.fields, attr.names.index('opts')))
+                item = fixed_item(prog, target)
+                a = new_cell(attr) if target in ('fn', 'mod') else attr
+                out = ex.run_body(prog.bodies[BACKEND[target]], [a, item])
+            if with_spec:
+                from . import spec
+                ex.notes['obligations'] = spec.spec_front_attr(ex, target, cells, parsed, attr0)
+            ex.notes['cells'] = cells
+            return out
+        return run, [pb]
+    return setup
